@@ -47,38 +47,35 @@ func extractFiles(input *requests.Request) *UploadMap {
 		return uploadMap
 	}
 	for varName, value := range input.Variables {
-		uploadMap.extract(value, varName)
-		// if the value was an upload, set the respective Request variable to null
-		if _, ok := value.(*requests.Upload); ok {
-			input.Variables[varName] = nil
-		}
+		// the request gets its own copy of the value with the uploads set to null;
+		// nested maps and lists can be shared with the requests sent to other services
+		input.Variables[varName] = uploadMap.extract(value, varName)
 	}
 	return uploadMap
 }
 
-func (u *UploadMap) extract(value interface{}, path string) {
+// extract registers the uploads found in value and returns a copy of value with the uploads set to null
+func (u *UploadMap) extract(value interface{}, path string) interface{} {
 	switch val := value.(type) {
 	case *requests.Upload: // Upload found
 		u.Add(val, path)
+		return nil
+	case requests.Upload:
+		return nil
 	case map[string]interface{}:
+		res := make(map[string]interface{}, len(val))
 		for k, v := range val {
-			u.extract(v, fmt.Sprintf("%s.%s", path, k))
-			// if the value was an upload, set the respective QueryInput variable to null
-			switch v.(type) {
-			case *requests.Upload, requests.Upload:
-				val[k] = nil
-			}
+			res[k] = u.extract(v, fmt.Sprintf("%s.%s", path, k))
 		}
+		return res
 	case []interface{}:
+		res := make([]interface{}, len(val))
 		for i, v := range val {
-			u.extract(v, fmt.Sprintf("%s.%d", path, i))
-			// if the value was an upload, set the respective QueryInput variable to null
-			switch v.(type) {
-			case *requests.Upload, requests.Upload:
-				val[i] = nil
-			}
+			res[i] = u.extract(v, fmt.Sprintf("%s.%d", path, i))
 		}
+		return res
 	}
+	return value
 }
 
 func prepareMultipart(payload []byte, uploadMap UploadMap) (body []byte, contentType string, err error) {
